@@ -15,7 +15,7 @@ class C06(TreeCheck):
     prop = "C06"
     rule_text = (
         "programs from g_kill: pool states {queued only, dispatched, running, finished results, cancelled} reached by a pause of 0-1.5 s before the "
-        "call; tasks that sleep 120 s ('endless'), nested executors (depth 0-2) whose sub-tasks are endless or spawn plain subprocesses; "
+        "call; tasks that sleep 120 s ('endless'), nested executors (depth 0-2) whose sub-tasks are endless or spawn plain subprocesses; family churn: every worker owns a long-lived helper plus a stream of short-lived subprocesses that vanish while the kill sweep walks the tree; "
         "shutdown(kill_workers=True) directly or through get_reusable_executor(kill_workers=True); from the submitting thread or a second one; "
         "psutil visible or hidden (pgrep path). Profile run, then a delay (D) at a statement of the kill path, and jitter (Z). Non-trivial = the "
         "forced call returned while at least one endless task had started; distinct = (shape, depth, via, psutil, mode, injection function, future outcome classes)."
@@ -28,9 +28,9 @@ class C06(TreeCheck):
         n = 12 if tier == "quick" else 80
         out = []
         for i in range(n):
-            fam = {0: "branching", 1: "branching", 2: "already_shutting_down", 3: "already_shutting_down"}.get(i % 12)
+            fam = {0: "branching", 1: "branching", 2: "already_shutting_down", 3: "already_shutting_down", 4: "churn", 5: "churn"}.get(i % 12)
             prog, meta = programs.g_kill(rng, family=fam)
-            hide = rng.random() < 0.35 if i % 12 not in (0, 1) else True
+            hide = (rng.random() < 0.35 if i % 12 not in (0, 1) else True) if fam != "churn" else (i % 12 == 5 and rng.random() < 0.5)
             meta["hide_psutil"] = hide
             out.append({"program": prog, "config": {"hide_psutil": hide}, "meta": meta})
         return out
@@ -46,7 +46,7 @@ class C06(TreeCheck):
 
     def nontrivial(self, case, F):
         forced = [o for o in F.ops.values() if o["call"] and o["call"]["a"].get("forced") and o["end"] is not None]
-        started = [s for t in F.tasks.values() for s in t["starts"] if s.get("kind") in ("endless", "nested", "spawn_subprocess")]
+        started = [s for t in F.tasks.values() for s in t["starts"] if s.get("kind") in ("endless", "nested", "spawn_subprocess", "churn_subprocess")]
         if not forced or not started:
             return None
         m = case["meta"]
